@@ -251,6 +251,7 @@ theorem good_lines (ls : List (Int × Int)) : ∀ (t : Track) (lines nl : List L
 structure Rec where
   lines : List (Int × Int)
   last : Option (Int × Int)
+  deriving DecidableEq, Repr
 
 def Rec.WF (rc : Rec) : Prop :=
   (∀ l ∈ rc.lines, 0 ≤ l.2 ∧ l.2 + 1 ≤ l.1) ∧ (∀ l, rc.last = some l → 0 ≤ l.2 ∧ l.2 ≤ l.1 ∧ 0 < l.1)
